@@ -236,64 +236,136 @@ func c01Handler(p *Prog, c *Check) {
 		}
 		m = eb["m"]
 		keysT := flds["Keys"]
-		var mo *MapOver
-		if keysT != nil && keysT.Val != nil {
-			mo = fi.asMapOver(p, keysT.Val)
+		// where the keys list is built: here, or in a helper whose result it is (terms of the helper are
+		// translated through the argument substitution; guards may sit in either function)
+		type keysSite struct {
+			fi   *FnInfo
+			val  ssa.Value
+			m    *Term
+			ret  *ssa.Return
+			up   func(*Term) *Term
+			here bool
 		}
-		b := Binds{"m": m}
-		if mo == nil || len(mo.Elems) != 1 || mo.Loop.Lo != 0 || !ParsePat("len($m.Shares)").Match(mo.Loop.Bound, copyBinds(b)) {
+		var sites []keysSite
+		if keysT != nil && keysT.Val != nil && keysT.Val.Parent() == hm && fi.asMapOver(p, keysT.Val) != nil {
+			sites = append(sites, keysSite{fi, keysT.Val, m, r, func(t *Term) *Term { return t }, true})
+		} else if keysT != nil {
+			ct := keysT
+			idx := 0
+			if ct.K == TRes {
+				idx = ct.Idx
+				ct = ct.Sub[0]
+			}
+			if ct.K == TCall && ct.Callee != nil && inModule(ct.Callee) && ct.Callee.Blocks != nil {
+				h := origin(ct.Callee)
+				hfi := p.Info(h)
+				sub := map[string]*Term{}
+				var hm2 *Term
+				for i, prm := range h.Params {
+					if i < len(ct.Sub) {
+						sub[prm.Name()] = ct.Sub[i]
+						if stripConv(ct.Sub[i]).s == m.s {
+							hm2 = hfi.T(prm)
+						}
+					}
+				}
+				if hm2 != nil {
+					nres := h.Signature.Results().Len()
+					for _, hr := range returnsOf(h) {
+						if isErrorType(h.Signature.Results().At(nres-1).Type()) && hfi.errIsNil(hr.Results[nres-1], hr, 0) == no {
+							continue
+						}
+						if hfi.T(hr.Results[idx]).K == TNil {
+							continue // no keys handed back on this return
+						}
+						sites = append(sites, keysSite{hfi, hr.Results[idx], hm2, hr, func(t *Term) *Term { return t.subst(sub) }, false})
+					}
+					c.Analysed(shortFn(h))
+				}
+			}
+		}
+		if len(sites) == 0 {
 			c.Fail(rule, key, site, shortFn(hm), "outgoing message", "Keys is not built one key per received share, in order")
 			continue
 		}
-		if !fi.onlyByExhaustion(mo.Loop, r.Block()) {
-			c.Fail(rule, key, site, shortFn(hm), "outgoing message", "the keys message can be returned before all identities were aggregated")
-			continue
-		}
-		b["i"] = mo.Loop.Idx
-		kf := fi.structLitFields(unbox(mo.Vals[0]))
-		pdr := "DecodePureDKGResult(GetDKGResultForKeyperConfigIndex(_, _, $m.Eon)#0.PureResult)#0"
-		kb := copyBinds(b)
-		okF := kf != nil && ParsePat("Bytes($m.Shares[$i].IdentityPreimage)").Match(kf["IdentityPreimage"], copyBinds(b)) &&
-			ParsePat("Marshal($ek.SecretKeys[Hex($m.Shares[$i].IdentityPreimage)])").Match(kf["Key"], kb)
-		if okF {
-			// $ek is the first result of a module function given (msg.Eon, the decoded DKG result, identity i)
-			ek := kb["ek"]
-			okF = false
-			if ek.K == TRes && ek.Idx == 0 && ek.Sub[0].K == TCall && ek.Sub[0].Callee != nil && inModule(ek.Sub[0].Callee) {
-				pos := [3]int{-1, -1, -1}
-				for ai, at := range ek.Sub[0].Sub {
-					switch {
-					case ParsePat("$m.Eon").Match(at, copyBinds(b)):
-						pos[0] = ai
-					case ParsePat(pdr).Match(at, copyBinds(b)):
-						pos[1] = ai
-					case ParsePat("$m.Shares[$i].IdentityPreimage").Match(at, copyBinds(b)):
-						pos[2] = ai
+		okAllSites := true
+		for _, ks := range sites {
+			sfi := ks.fi
+			sfn := sfi.Fn
+			mo := sfi.asMapOver(p, ks.val)
+			b := Binds{"m": ks.m}
+			if mo == nil || len(mo.Elems) != 1 || mo.Loop.Lo != 0 || !ParsePat("len($m.Shares)").Match(mo.Loop.Bound, copyBinds(b)) {
+				c.Fail(rule, key, site, shortFn(sfn), "outgoing message", "Keys is not built one key per received share, in order")
+				okAllSites = false
+				continue
+			}
+			if !sfi.onlyByExhaustion(mo.Loop, ks.ret.Block()) {
+				c.Fail(rule, key, site, shortFn(sfn), "outgoing message", "the keys message can be returned before all identities were aggregated")
+				okAllSites = false
+				continue
+			}
+			b["i"] = mo.Loop.Idx
+			kf := sfi.structLitFields(unbox(mo.Vals[0]))
+			pdr := "DecodePureDKGResult(GetDKGResultForKeyperConfigIndex(_, _, $m.Eon)#0.PureResult)#0"
+			// matchUp: in the site's own terms, or (for a helper) after translation into HandleMessage's
+			matchUp := func(t *Term, pat string) bool {
+				if ParsePat(pat).Match(t, copyBinds(b)) {
+					return true
+				}
+				if ks.here {
+					return false
+				}
+				ub := copyBinds(b)
+				ub["m"] = m
+				return ParsePat(pat).Match(ks.up(t), ub)
+			}
+			kb := copyBinds(b)
+			okF := kf != nil && ParsePat("Bytes($m.Shares[$i].IdentityPreimage)").Match(kf["IdentityPreimage"], copyBinds(b)) &&
+				ParsePat("Marshal($ek.SecretKeys[Hex($m.Shares[$i].IdentityPreimage)])").Match(kf["Key"], kb)
+			if okF {
+				// $ek is the first result of a module function given (msg.Eon, the decoded DKG result, identity i)
+				ek := kb["ek"]
+				okF = false
+				if ek.K == TRes && ek.Idx == 0 && ek.Sub[0].K == TCall && ek.Sub[0].Callee != nil && inModule(ek.Sub[0].Callee) {
+					pos := [3]int{-1, -1, -1}
+					for ai, at := range ek.Sub[0].Sub {
+						switch {
+						case matchUp(at, "$m.Eon"):
+							pos[0] = ai
+						case matchUp(at, pdr):
+							pos[1] = ai
+						case ParsePat("$m.Shares[$i].IdentityPreimage").Match(at, copyBinds(b)):
+							pos[2] = ai
+						}
+					}
+					if pos[0] >= 0 && pos[1] >= 0 && pos[2] >= 0 {
+						okF = true
+						agg, aggArgIdx = ek.Sub[0].Callee, pos
+						b["ek"] = ek
+						b["aggcall"] = ek.Sub[0]
 					}
 				}
-				if pos[0] >= 0 && pos[1] >= 0 && pos[2] >= 0 {
-					okF = true
-					agg, aggArgIdx = ek.Sub[0].Callee, pos
-					b["ek"] = ek
-					b["aggcall"] = ek.Sub[0]
+			}
+			if !okF {
+				got := ""
+				if kf != nil && kf["Key"] != nil {
+					got = kf["Key"].s
 				}
+				c.Fail(rule, key, site, shortFn(sfn), "released key", "Key i is not Marshal(aggregate(eon, identity i).SecretKeys[Hex(identity i)]) with identity i = Shares[i].IdentityPreimage: "+got)
+				okAllSites = false
+				continue
+			}
+			okG := c.Guard(p, rule, key+":guard", mo.Calls[0], "append(keys, &Key{...})", copyBinds(b),
+				"ok($ek.SecretKeys[Hex($m.Shares[$i].IdentityPreimage)]) == true",
+				"$aggcall#1 == nil",
+				"GetDKGResultForKeyperConfigIndex(_, _, $m.Eon)#0.Success == true",
+				"GetDKGResultForKeyperConfigIndex(_, _, $m.Eon)#1 == nil",
+			)
+			if !okG {
+				okAllSites = false
 			}
 		}
-		if !okF {
-			got := ""
-			if kf != nil && kf["Key"] != nil {
-				got = kf["Key"].s
-			}
-			c.Fail(rule, key, site, shortFn(hm), "released key", "Key i is not Marshal(aggregate(eon, identity i).SecretKeys[Hex(identity i)]) with identity i = Shares[i].IdentityPreimage: "+got)
-			continue
-		}
-		okG := c.Guard(p, rule, key+":guard", mo.Calls[0], "append(keys, &Key{...})", copyBinds(b),
-			"ok($ek.SecretKeys[Hex($m.Shares[$i].IdentityPreimage)]) == true",
-			"$aggcall#1 == nil",
-			"GetDKGResultForKeyperConfigIndex(_, _, $m.Eon)#0.Success == true",
-			"GetDKGResultForKeyperConfigIndex(_, _, $m.Eon)#1 == nil",
-		)
-		if okG {
+		if okAllSites {
 			c.Ok(rule, key, site, shortFn(hm), "outgoing DecryptionKeys", "Keys[i] = Marshal(SecretKeys[Hex(id_i)]) found, aggregator of (msg.Eon, id_i), DKG success")
 		}
 	}
